@@ -91,31 +91,31 @@ type Failure struct {
 
 // Sched is one controlled execution.
 type Sched struct {
-	threads  []*thread
-	cur      *thread
-	prefix   []int
-	points   []Point
-	choices  []int
-	now      int64 // virtual ns since epoch
-	timers   []*Timer
-	aborting bool
-	endCh    chan struct{}
-	steps    int
-	horizon  int
-	loops    int
-	loopHorizon int
-	capHit   string
-	fails    []Failure
-	obs      []string
-	chans    map[uintptr]*chanModel
-	shadow   map[accKey]*shadowCell
-	raceOn   bool
-	ctxSync  Sync
-	replayErr string
+	threads             []*thread
+	cur                 *thread
+	prefix              []int
+	points              []Point
+	choices             []int
+	now                 int64 // virtual ns since epoch
+	timers              []*Timer
+	aborting            bool
+	endCh               chan struct{}
+	steps               int
+	horizon             int
+	loops               int
+	loopHorizon         int
+	capHit              string
+	fails               []Failure
+	obs                 []string
+	chans               map[uintptr]*chanModel
+	shadow              map[accKey]*shadowCell
+	raceOn              bool
+	ctxSync             Sync
+	replayErr           string
 	allowBlockedDaemons bool
-	trace    []string
-	traceOn  bool
-	User     any
+	trace               []string
+	traceOn             bool
+	User                any
 }
 
 var active atomic.Pointer[Sched]
@@ -498,16 +498,16 @@ func PanicSite(stack string) string { return panicSite(stack) }
 // running one execution
 
 type Result struct {
-	Points   []Point
-	Choices  []int
-	Fails    []Failure
-	Obs      []string
-	CapHit   string
-	Steps    int
-	Threads  int
-	Trace    []string
+	Points    []Point
+	Choices   []int
+	Fails     []Failure
+	Obs       []string
+	CapHit    string
+	Steps     int
+	Threads   int
+	Trace     []string
 	ReplayErr string
-	Hung     bool
+	Hung      bool
 }
 
 type RunOpts struct {
@@ -596,12 +596,12 @@ type Stats struct {
 }
 
 type Explorer struct {
-	o     ExploreOpts
-	body  func(s *Sched)
-	st    *Stats
-	seen  map[string]bool
-	capped bool
-	stop   bool
+	o       ExploreOpts
+	body    func(s *Sched)
+	st      *Stats
+	seen    map[string]bool
+	capped  bool
+	stop    bool
 	subtree int
 }
 
